@@ -169,6 +169,106 @@ func refSequenceUnit(r refCfg, flight int) harness.Unit {
 	}}
 }
 
+// refStraddleUnit: a handshake message cut in two by ChangeCipherSpec - the tail of the message
+// before it arrives after it, or the head of the message after it arrives before it. The peer's
+// transcript contains each message exactly once and its Finished is correct, so only the check that
+// no handshake data is pending at ChangeCipherSpec can refuse it.
+func refStraddleUnit(r refCfg) harness.Unit {
+	return harness.Unit{Name: fmt.Sprintf("scripted-peer-straddle/%s", r), Run: func(c *harness.Ctx) {
+		o, honest, _ := r.run(nil)
+		c.Add("executions", 1)
+		if !o.Lib.Complete || !o.Ref.Res.Completed {
+			c.Violate("control-fails:scripted-peer:"+r.String(), fmt.Sprintf("honest reference peer and library do not complete: %s", o.Describe()), nil, nil)
+			return
+		}
+		// the flight that carries ChangeCipherSpec is flight 1 in both roles
+		ccs := -1
+		for i, n := range honest[1] {
+			if n == "ChangeCipherSpec" {
+				ccs = i
+			}
+		}
+		if ccs < 0 {
+			return
+		}
+		type cut struct {
+			before    bool // true: the message BEFORE ChangeCipherSpec loses its tail to the other side
+			k         int  // bytes that end up on the other side
+			coalesced bool // the head of the next message travels in the SAME record as the previous message
+		}
+		var cuts []cut
+		for _, k := range []int{1, 2, 4, 5, 11} {
+			cuts = append(cuts, cut{false, k, false})
+			if ccs > 0 {
+				cuts = append(cuts, cut{true, k, false}, cut{false, k, true})
+			}
+		}
+		for _, ct := range cuts {
+			ct := ct
+			mut := func(fl int, items []gmref.Item) []gmref.Item {
+				if fl != 1 {
+					return items
+				}
+				out := append([]gmref.Item{}, items[:ccs]...)
+				var part []byte
+				if ct.before {
+					prev := items[ccs-1]
+					out = out[:ccs-1]
+					out = append(out, gmref.Item{Name: prev.Name + "(head)", Rec: gmref.RecHS, Fragment: true, Build: func(p *gmref.Peer) []byte {
+						m := prev.Build(p)
+						p.Transcript = append(p.Transcript, m...)
+						k := ct.k
+						if k >= len(m) {
+							k = len(m) - 1
+						}
+						part = m[len(m)-k:]
+						return m[:len(m)-k]
+					}}, items[ccs], gmref.Item{Name: prev.Name + "(tail after ChangeCipherSpec)", Rec: gmref.RecHS, Fragment: true, Build: func(p *gmref.Peer) []byte { return part }})
+					return append(out, items[ccs+1:]...)
+				}
+				next := items[ccs+1]
+				var lead []byte
+				if ct.coalesced {
+					prev := items[ccs-1]
+					out = out[:ccs-1]
+					out = append(out, gmref.Item{Name: prev.Name + "(accounted)", Rec: gmref.RecHS, Fragment: true, Build: func(p *gmref.Peer) []byte {
+						lead = prev.Build(p)
+						p.Transcript = append(p.Transcript, lead...)
+						return nil
+					}})
+				}
+				out = append(out, gmref.Item{Name: next.Name + "(head before ChangeCipherSpec)", Rec: gmref.RecHS, Fragment: true, Build: func(p *gmref.Peer) []byte {
+					m := next.Build(p)
+					if len(m) > 0 && m[0] == gmref.HSFinished {
+						p.SentFinished = true
+					}
+					p.Transcript = append(p.Transcript, m...)
+					k := ct.k
+					if k >= len(m) {
+						k = len(m) - 1
+					}
+					part = m[k:]
+					return append(append([]byte{}, lead...), m[:k]...)
+				}}, items[ccs], gmref.Item{Name: next.Name + "(tail)", Rec: gmref.RecHS, Fragment: true, Build: func(p *gmref.Peer) []byte { return part }})
+				return append(out, items[ccs+2:]...)
+			}
+			o := r.runMut(mut)
+			side := "the first"
+			name := honest[1][ccs+1]
+			if ct.before {
+				side = "the last"
+				name = honest[1][ccs-1]
+			}
+			tag := fmt.Sprintf("%s; %s %d byte(s) of %s on the other side of ChangeCipherSpec (same record as the previous message: %v)", r, side, ct.k, name, ct.coalesced)
+			c.Add("executions", 1)
+			c.Add("transitions", 1)
+			c.DistinctS("states", tag)
+			c.Sample(tag)
+			judgeRef(c, r, tag, fmt.Sprintf("straddles-ChangeCipherSpec:%s:before=%v:coalesced=%v", name, ct.before, ct.coalesced), o, refdev.MustAbort)
+		}
+	}}
+}
+
 func refUnits() []harness.Unit {
 	var u []harness.Unit
 	for _, lc := range []bool{true, false} {
@@ -177,7 +277,7 @@ func refUnits() []harness.Unit {
 				for f := 0; f < 2; f++ {
 					u = append(u, refSequenceUnit(refCfg{lc, suite, auth}, f))
 				}
-				u = append(u, refMalformedUnit(refCfg{lc, suite, auth}))
+				u = append(u, refMalformedUnit(refCfg{lc, suite, auth}), refStraddleUnit(refCfg{lc, suite, auth}))
 			}
 		}
 	}
